@@ -153,59 +153,158 @@ theorem parse_print_bool (L : Levels) (b : BExpr) : refParseB L (prB L 0 b) = .o
 
 /-! ### Evaluation -/
 
-/-- evaluation with the generated rule actions is evaluation with the Spec's operator semantics -/
-theorem eval_agrees (vars : Vars) (e : Expr) : eval vars e = Spec.eval vars e := by
-  induction e with
-  | lit n => rfl
-  | var x => simp [eval, Spec.eval, (lookup_agrees _ _).2]
-  | bin o l r ihl ihr =>
-    simp only [eval, Spec.eval, ihl, ihr, asInt_eq, actions_agree]
-    cases Spec.eval vars l <;> cases Spec.eval vars r <;> rfl
-  | neg e ih =>
-    simp only [eval, Spec.eval, ih, asInt_eq, (unary_actions_agree _).1]
-    cases Spec.eval vars e <;> rfl
-  | pos e ih =>
-    simp only [eval, Spec.eval, ih, asInt_eq, (unary_actions_agree _).2]
-    cases Spec.eval vars e <;> rfl
-  | size s e ih =>
-    simp only [eval, Spec.eval, ih, asInt_eq, size_actions_agree]
-    cases Spec.eval vars e <;> rfl
+/- full-strength statements (false on the current tree, known finding C19-undefined-ident):
+   theorem eval_agrees  : eval vars e = Spec.eval vars e
+   theorem evalB_agrees : evalB vars b = Spec.evalB vars b
+   Refuting example (below, `undefined_ident_not_refused`): with `foo` undefined, `foo && 4096` is an error for the Spec
+   (an undefined identifier denotes no value) but evaluates to 4096 in the implementation, because an undefined identifier
+   evaluates to its own name as a Python str and `and`/`or`/`not`/`==`/`<`/`+`/`*` accept strs. -/
 
-theorem evalB_agrees (vars : Vars) (b : BExpr) : evalB vars b = Spec.evalB vars b := by
-  induction b with
-  | atom e => simp [evalB, Spec.evalB, eval_agrees]
+/-- Whenever the Spec gives a value, evaluation with the generated rule actions gives the same value
+    (the supported subset: every identifier that takes part in an operation is defined as a number). -/
+theorem eval_refines (vars : Vars) (e : Expr) (v : Val) (h : Spec.eval vars e = .ok v) : eval vars e = .ok v := by
+  induction e generalizing v with
+  | lit n => exact h
+  | var x => simpa [eval, Spec.eval, (lookup_agrees _ _).2] using h
   | bin o l r ihl ihr =>
-    simp only [evalB, Spec.evalB, ihl, ihr, asInt_eq, cmp_actions_agree]
-    cases Spec.evalB vars l <;> cases Spec.evalB vars r <;> rfl
+    simp only [Spec.eval, bind, Except.bind] at h
+    cases hl : Spec.eval vars l with
+    | error e => simp [hl] at h
+    | ok a =>
+      cases hr : Spec.eval vars r with
+      | error e => simp [hl, hr] at h
+      | ok b =>
+        cases a with
+        | sym _ => simp [hl, hr, Spec.needInt] at h
+        | int x =>
+          cases b with
+          | sym _ => simp [hl, hr, Spec.needInt] at h
+          | int y =>
+            simp only [hl, hr, Spec.needInt] at h
+            simp only [eval, ihl _ hl, ihr _ hr, binVal, actions_agree]
+            cases hz : Spec.opSem o x y with
+            | error e => simp [hz] at h
+            | ok z => simpa [hz, pure, Except.pure] using h
+  | neg e ih =>
+    simp only [Spec.eval, bind, Except.bind] at h
+    cases he : Spec.eval vars e with
+    | error e => simp [he] at h
+    | ok a =>
+      cases a with
+      | sym _ => simp [he, Spec.needInt] at h
+      | int x =>
+        simp only [he, Spec.needInt] at h
+        simp only [eval, ih _ he, unaryVal, if_true, (unary_actions_agree _).1]
+        simpa [Spec.negSem, pure, Except.pure] using h
+  | pos e ih =>
+    simp only [Spec.eval, bind, Except.bind] at h
+    cases he : Spec.eval vars e with
+    | error e => simp [he] at h
+    | ok a =>
+      cases a with
+      | sym _ => simp [he, Spec.needInt] at h
+      | int x =>
+        simp only [he, Spec.needInt] at h
+        simp only [eval, ih _ he, unaryVal, (unary_actions_agree _).2]
+        simpa [Spec.posSem, pure, Except.pure] using h
+  | size s e ih =>
+    simp only [Spec.eval, bind, Except.bind] at h
+    cases he : Spec.eval vars e with
+    | error e => simp [he] at h
+    | ok a =>
+      cases a with
+      | sym _ => simp [he, Spec.needInt] at h
+      | int x =>
+        simp only [he, Spec.needInt] at h
+        simp only [eval, ih _ he, sizeVal, size_actions_agree]
+        simpa [Spec.sizeSem, pure, Except.pure] using h
+
+theorem evalB_refines (vars : Vars) (b : BExpr) (v : Val) (h : Spec.evalB vars b = .ok v) : evalB vars b = .ok v := by
+  induction b generalizing v with
+  | atom e => exact eval_refines vars e v h
+  | bin o l r ihl ihr =>
+    simp only [Spec.evalB, bind, Except.bind] at h
+    cases hl : Spec.evalB vars l with
+    | error e => simp [hl] at h
+    | ok a =>
+      cases hr : Spec.evalB vars r with
+      | error e => simp [hl, hr] at h
+      | ok b =>
+        cases a with
+        | sym _ => simp [hl, hr, Spec.needInt] at h
+        | int x =>
+          cases b with
+          | sym _ => simp [hl, hr, Spec.needInt] at h
+          | int y =>
+            simp only [hl, hr, Spec.needInt] at h
+            simp only [evalB, ihl _ hl, ihr _ hr, cmpVal, cmp_actions_agree]
+            cases hz : Spec.cmpSem o x y with
+            | error e => simp [hz] at h
+            | ok z => simpa [hz, pure, Except.pure] using h
   | lnot b ih =>
-    simp only [evalB, Spec.evalB, ih, asInt_eq, lnot_action_agrees]
-    cases Spec.evalB vars b <;> rfl
-  | defined x => simp [evalB, Spec.evalB, defined_agrees, pyBoolInt_eq]
+    simp only [Spec.evalB, bind, Except.bind] at h
+    cases he : Spec.evalB vars b with
+    | error e => simp [he] at h
+    | ok a =>
+      cases a with
+      | sym _ => simp [he, Spec.needInt] at h
+      | int x =>
+        simp only [he, Spec.needInt] at h
+        simp only [evalB, ih _ he, lnotVal, lnot_action_agrees]
+        simpa [Spec.lnotSem, pure, Except.pure] using h
+  | defined x => simpa [evalB, Spec.evalB, defined_agrees, pyBoolInt_eq] using h
+
+/-- the refuting example of the full-strength `evalB_agrees` (known finding C19-undefined-ident) -/
+theorem undefined_ident_not_refused :
+    Spec.evalB [] (.bin .land (.atom (.var "foo")) (.atom (.lit 4096))) = .error .other ∧
+    evalB [] (.bin .land (.atom (.var "foo")) (.atom (.lit 4096))) = .ok (.int 4096) := by decide
 
 /-- the text printed for an abstract expression evaluates (reference parser with the implementation's levels, then the
-    implementation's rule actions) to what the Spec says about that expression -/
-theorem eval_parse_print (vars : Vars) (b : BExpr) :
+    implementation's rule actions) to what the Spec says about that expression, whenever the Spec gives a value -/
+theorem eval_parse_print (vars : Vars) (b : BExpr) (v : Val) (h : Spec.evalB vars b = .ok v) :
     (match refParseB genLevels (prB genLevels 0 b) with
      | .ok b' => some (evalB vars b')
-     | .error _ => none) = some (Spec.evalB vars b) := by
+     | .error _ => none) = some (.ok v) := by
   rw [parse_print_bool]
-  simp only [evalB_agrees]
+  simp only [evalB_refines vars b v h]
 
 /-! ### Statements -/
 
-/- full-strength statement (false on the current tree: known findings C19-blob-load and C19-prog-blob-zeros):
+/- full-strength statement (false on the current tree):
    theorem elab_one_cmd : Spec.cmdOf env kbs s = some c → elabStmt env kbs s = .ok c
+   The hypotheses of the proved theorem are exactly the forms of four open findings, each with a refuting example below:
+   C19-blob-load (plain blob load), C19-prog-blob-zeros (8-byte fuse blob whose first word is zero), C19-call-reset,
+   C19-keyblob-byteswap (`encrypt` with a key blob that asks for byte swapping). -/
 
-   What is proved excludes every `load … {{blob}}` statement.  Of these, the plain load and the 8-byte program-fuse load with
-   a zero first word are the two recorded counter-examples; the remaining case (program-fuse load of a 4- or 8-byte
-   blob) is checked by the driver on every generated statement (it recomputes `elabStmt = Spec.cmdOf` and flags a
-   mismatch) but not proved — it needs arithmetic on hexadecimal strings. -/
-
-/-- every supported statement (other than a blob load) becomes exactly the one command the Spec states -/
+/-- every supported statement becomes exactly the one command the Spec states — except the four recorded forms -/
 theorem elab_one_cmd_partial (env : Env) (kbs : List KeyBlobDef) (s : Stmt) (c : Cmd)
-    (h1 : Spec.isBlobLoad s = false)
+    (h1 : Spec.isPlainBlobLoad env s = false) (h2 : Spec.isProgBlobLeadingZeros env s = false)
+    (h3 : Spec.isCallOrReset s = false) (h4 : Spec.isSwappedEncrypt env kbs s = false)
     (h : Spec.cmdOf env kbs s = some c) : elabStmt env kbs s = .ok c :=
-  elab_one_cmd_noblob env kbs (fun e => eval_agrees env.vars e) s c h1 h
+  elab_one_cmd_except env kbs (fun e v => eval_refines env.vars e v) s c h1 h2 h3 h4 h
+
+/-- refuting examples of the full-strength statement, one per excluded form -/
+theorem elab_one_cmd_counterexamples :
+    (Spec.cmdOf {} [] (.load .none (.blob "aabbccdd") (.addr (.lit 16))) = some (.load 16 0 [0xaa, 0xbb, 0xcc, 0xdd]) ∧
+      elabStmt {} [] (.load .none (.blob "aabbccdd") (.addr (.lit 16))) = .ok (.load 16 0 [0xdd, 0xcc, 0xbb, 0xaa])) ∧
+    (Spec.cmdOf {} [] (.load (.at (.lit 4)) (.blob "0000000011223344") (.addr (.lit 8))) = some (.prog 8 4 0 0x44332211) ∧
+      elabStmt {} [] (.load (.at (.lit 4)) (.blob "0000000011223344") (.addr (.lit 8))) = .ok (.prog 8 4 0x44332211 0)) ∧
+    (Spec.cmdOf {} [] (.call (.lit 16) .none) = some (.call 16 (.i 0)) ∧
+      elabStmt {} [] (.call (.lit 16) .none) = .error (.py .other)) ∧
+    (Spec.cmdOf {} [] .reset = some .reset ∧ elabStmt {} [] .reset = .error (.py .other)) := by decide
+
+/-- the boot sections carry the ids written in the file — proved only when these are 0, 1, 2, … in order, because
+    `load_from_config` numbers the sections by position (known finding C19-section-id; refuting example below) -/
+theorem section_ids_partial (cfg : Config) (ids : List Int) (h : Spec.sectionUids cfg = some ids)
+    (hpos : ids = (List.range ids.length).map Int.ofNat) : sectionUids cfg = ids := by
+  have hl : ids.length = cfg.sections.length := by
+    unfold Spec.sectionUids at h
+    exact mapM_some_length _ _ _ h
+  unfold sectionUids
+  rw [← hl]; exact hpos.symm
+
+theorem section_ids_counterexample :
+    Spec.sectionUids { sections := [(.i 5, [])] } = some [5] ∧ sectionUids { sections := [(.i 5, [])] } = [0] := by decide
 
 /-- a section's statements become one command each, in order -/
 theorem section_one_cmd_each (env : Env) (ss : List Stmt) (ds : List (String × Dict))
